@@ -61,6 +61,10 @@ def fitted_hourly():
     return HourlyModel().fit(bd, ignore_disqualification=True)
 
 
+class _TieBroken(Exception):
+    pass
+
+
 def run(ctx):
     warnings.filterwarnings("ignore")
     from opendsm.eemeter.models.hourly.model import _get_dst_indices, _transform_dst, HourlyModel
@@ -80,6 +84,17 @@ def run(ctx):
     per_zone = 6 if not thorough else 12      # all zones, a sample of each zone's transitions (earliest, latest, random)
     hm_json = fitted_hourly().to_json()
     n_pred = 0
+    # the two module-level helpers are called directly below; if their signatures are no longer the ones this harness knows, that is
+    # a broken TIE (reported once as a disagreement, never as a failing input) and only the public predict() paths decide
+    import inspect
+    try:
+        internal_ok = (list(inspect.signature(_get_dst_indices).parameters) == ["df"] and
+                       list(inspect.signature(_transform_dst).parameters) == ["prediction", "dst_indices"])
+    except Exception:  # noqa
+        internal_ok = False
+    if not internal_ok:
+        res["disagreements"].append(dict(op="dst.internal_signature", detail="_get_dst_indices / _transform_dst no longer have the signatures the harness calls",
+                                         now=[str(inspect.signature(f)) for f in (_get_dst_indices, _transform_dst)]))
     for zone in zones:
         try:
             trs = transitions(zone)
@@ -108,6 +123,8 @@ def run(ctx):
                 D = len(day_desc)
                 pred = np.arange(24 * D, dtype=float)
                 try:
+                    if not internal_ok:
+                        raise _TieBroken()
                     ii = _get_dst_indices(d)
                     out = _transform_dst(pred, ii)
                     impl = ("ok", out)
@@ -120,12 +137,14 @@ def run(ctx):
                             dd_ = res["finding_instances"].setdefault("C06-F4", dict(count=0, example=None))
                             dd_["count"] += 1
                             dd_["example"] = dd_["example"] or f_
-                        elif abs(shift) not in (0, 3600) and any(e["id"] == "C06-F1" and e.get("status") == "finding" for e in ctx.get("findings", [])):
+                        elif abs(shift) not in (0, 3600) and abs(shift) % 86400 != 0 and any(e["id"] == "C06-F1" and e.get("status") == "finding" for e in ctx.get("findings", [])):
                             dd_ = res["finding_instances"].setdefault("C06-F1", dict(count=0, example=None))
                             dd_["count"] += 1
                             dd_["example"] = dd_["example"] or f_
                         else:
                             res["oracle_failures"].append(f_)
+                except _TieBroken:
+                    impl = ("skipped", None)
                 except Exception as e:  # noqa
                     impl = ("err", type(e).__name__)
                     res["oracle_failures"].append(dict(clause="hourly_clock_normalisation_raises", zone=zone, transition_utc=str(t), shift_seconds=shift,
@@ -164,7 +183,7 @@ def run(ctx):
                                 dd_ = res["finding_instances"].setdefault("C06-F4", dict(count=0, example=None))
                                 dd_["count"] += 1
                                 dd_["example"] = dd_["example"] or f_
-                            elif abs(shift) not in (0, 3600) and any(e_["id"] == "C06-F1" and e_.get("status") == "finding" for e_ in ctx.get("findings", [])):
+                            elif abs(shift) not in (0, 3600) and abs(shift) % 86400 != 0 and any(e_["id"] == "C06-F1" and e_.get("status") == "finding" for e_ in ctx.get("findings", [])):
                                 # C06-F1: clock changes that are not one hour (30 minutes: Caracas 2007, Lord Howe; 2 hours: Troll)
                                 dd_ = res["finding_instances"].setdefault("C06-F1", dict(count=0, example=None))
                                 dd_["count"] += 1
@@ -175,7 +194,10 @@ def run(ctx):
 
     # ---- frames that hold SEVERAL clock changes, in both orders (autumn then spring: mid-year to mid-year in the north, a calendar
     # year in the south; spring then autumn; two years): the mapping back to the real clock must handle every order of operations
-    long_frames = [("America/Chicago", "2019-07-01", 366), ("America/Chicago", "2019-01-01", 365), ("Australia/Sydney", "2019-01-01", 365),
+    # … and frames across a calendar date that does not exist in the zone (Samoa and Tokelau skipped 2011-12-30 when they moved
+    # across the date line): the local days of the frame are not consecutive calendar days
+    long_frames = [("Pacific/Apia", "2011-12-20", 21), ("Pacific/Fakaofo", "2011-12-01", 60), ("Pacific/Apia", "2011-10-01", 120),
+                   ("America/Chicago", "2019-07-01", 366), ("America/Chicago", "2019-01-01", 365), ("Australia/Sydney", "2019-01-01", 365),
                    ("Europe/Berlin", "2019-10-20", 170)] + ([("America/Chicago", "2019-01-01", 731), ("Australia/Sydney", "2018-07-01", 365),
                                                             ("America/Santiago", "2019-01-01", 365)] if thorough else [])
     for zone, d0, days in long_frames:
@@ -289,6 +311,8 @@ def run(ctx):
         outs = core.run_driver(lines)
         for o, (zone, t, impl, nrows) in zip(outs, metas):
             res["traces"] += 1
+            if impl[0] == "skipped":
+                continue
             if impl[0] == "err":
                 if not o.startswith("err"):
                     res["disagreements"].append(dict(zone=zone, transition=t, lean=o[:80], impl=impl[1]))
